@@ -228,6 +228,14 @@ pub fn connect(addr: &Addr) -> io::Result<Stream> {
 impl Stream {
     pub fn peer_addr(&self) -> io::Result<Option<SocketAddr>> {
         if self.side == 1 {
+            // as with the kernel (getpeername => ENOTCONN): the peer of a connection that the
+            // client has already reset can no longer be asked for
+            if self.conn.st.lock().unwrap().pipes[0].reset {
+                if let Some((w, _)) = world::current() {
+                    w.with(|g| g.fault("peer_addr_fails_on_reset_connection"));
+                }
+                return Err(io::Error::new(ErrorKind::NotConnected, "simulated: transport endpoint is not connected"));
+            }
             Ok(self.conn.peer)
         } else {
             Ok(None)
